@@ -574,3 +574,82 @@ def root_of_line(line):
 def monitor_lines(lines, out):
     root, _ = root_of_line(lines[0])
     return monitor(root, out)
+
+
+# ---------------------------------------------------------------- the real binary (family 19)
+BUILTIN_PREFIX = "Kuksa.Databroker."      # GitVersion, CargoVersion, GitCommitSha: registered by main.rs itself
+
+
+def dec_binary(out):
+    """output of family 19 -> None (rejected) | dict path -> (kuksa data type, kuksa entry type, value or None)"""
+    if not out or out[0] == [1]:
+        return None
+    rows = {}
+    for l in out[1:]:
+        if l[0] != 503:
+            continue
+        path, i = _str(l, 1)
+        v = None
+        if l[i + 2] == 1:
+            v, _ = E.dec_val(l, i + 3)
+        if not path.startswith(BUILTIN_PREFIX):
+            rows[path] = (l[i], l[i + 1], v)
+    return rows
+
+
+def expected_binary(out17):
+    """what the start-up sequence loads, in the form of dec_binary, from an output of family 17 (model or in-process)"""
+    from . import hist as H
+    if not out17 or out17[0] == [1]:
+        return None
+    ents = dict(dec_entry(l) for l in out17 if l[0] == 500)
+    vals = {p: v for _i, p, v in (dec_loaded(l) for l in out17 if l[0] == 501)}
+    rows = {}
+    for p, e in ents.items():
+        if p not in vals:
+            continue                      # registration refused by the broker (invalid name): logged and skipped
+        v = vals[p]
+        rows[p] = (H.KUKSA_DT[e["dtype"]], H.KUKSA_ET[e["etype"]], None if v == (E.NA, None) else v)
+    return rows
+
+
+def monitor_binary(lines, out):
+    """the real binary against the document itself (ground truth re-read from the JSON text)"""
+    from . import hist as H
+    root, _ = root_of_line(lines[0])
+    if not out:
+        return ["malformed-output: no output"]
+    if out[0][0] in (-88, -2, -3, -1):
+        return ["C17-binary: the databroker binary neither served nor refused the file (%r)" % out[0]]
+    try:
+        gt = ground_truth(root)
+        why = None
+    except Reject as r:
+        gt, why = None, str(r)
+    rows = dec_binary(out)
+    if rows is None:
+        return ["C17-accept: the databroker binary refused a well-formed document"] if gt is not None else []
+    if gt is None:
+        return ["C17-reject: the databroker binary loaded a malformed document (%s)" % why]
+    fails = []
+    names_ok = {p for p in gt if all(sg and not any(ch in H.UNI_WS for ch in sg) for sg in p.split("."))}
+    if set(rows) - set(gt):
+        fails.append("C17-leaves: the binary serves %s, which are no leaves of the document" % sorted(set(rows) - set(gt)))
+    for p in sorted(names_ok):
+        e = gt[p]
+        if p not in rows:
+            fails.append("C17-leaves: the binary does not serve the leaf %s" % p)
+            continue
+        dt, et, v = rows[p]
+        if dt != H.KUKSA_DT[e["dtype"]] or et != H.KUKSA_ET[e["etype"]]:
+            fails.append("C17-field: the binary serves %s as data type %d / entry type %d, declared %s / %d" % (
+                p, dt, et, DT_NAMES[e["dtype"]], e["etype"]))
+        if e["default"] is None:
+            if v is not None:
+                fails.append("C17-initial: %s starts as %s without a declared default" % (p, E.show_val(v)))
+        else:
+            ok = V.in_domain(e["dtype"], e["min"], e["max"], e["allowed"], e["default"], True)
+            if ok is True and v != e["default"]:
+                fails.append("C17-initial: attribute %s starts as %s in the binary, declared default %s" % (
+                    p, "nothing" if v is None else E.show_val(v), E.show_val(e["default"])))
+    return fails
